@@ -61,6 +61,7 @@ let pcall () : call = match next () with
   | "pair" -> let a = pval () in CPair (a, pval ()) | "replicate" -> let v = pval () in CReplicate (v, nat ())
   | "cartesian" -> CCartesian | "repeat_concat" -> CRepeatConcat (nat ()) | "power" -> CPower (nat ())
   | "join" -> CJoin (pstr ()) | "split" -> CSplit (pstr ()) | "words" -> CWords | "lines" -> CLines
+  | "unwords" -> CUnwords | "unlines" -> CUnlines
   | "permutations" -> CPermutations | "combinations" -> CCombinations (nat ()) | "subsequences" -> CSubsequences
   | s -> raise (Bad ("call " ^ s))
 
@@ -72,7 +73,14 @@ let esc (cs : int list) : string =
     else if c = 10 then Buffer.add_string b "\\n"
     else if c < 32 || c = 127 then Buffer.add_string b (Printf.sprintf "\\u{%x}" c)
     else if c < 128 then Buffer.add_char b (Char.chr c)
-    else raise (Bad "non-ascii")) cs;
+    else if c < 0x800 then (Buffer.add_char b (Char.chr (0xC0 lor (c lsr 6))); Buffer.add_char b (Char.chr (0x80 lor (c land 0x3F))))
+    else if c < 0x10000 then (Buffer.add_char b (Char.chr (0xE0 lor (c lsr 12)));
+                              Buffer.add_char b (Char.chr (0x80 lor ((c lsr 6) land 0x3F)));
+                              Buffer.add_char b (Char.chr (0x80 lor (c land 0x3F))))
+    else (Buffer.add_char b (Char.chr (0xF0 lor (c lsr 18)));
+          Buffer.add_char b (Char.chr (0x80 lor ((c lsr 12) land 0x3F)));
+          Buffer.add_char b (Char.chr (0x80 lor ((c lsr 6) land 0x3F)));
+          Buffer.add_char b (Char.chr (0x80 lor (c land 0x3F))))) cs;
   Buffer.contents b
 
 let fbits (z : BZ.t) = Printf.sprintf "F%016Lx" (Int64.bits_of_float (BZ.to_float z))
